@@ -97,6 +97,9 @@ func runProp(c *Ctx, p *Prop) (code int) {
 		}()
 	}
 	r.Extra["configurations"] = cfgNames
+	if selfTestN > 0 {
+		r.Extra["selftest"] = fmt.Sprintf("%d fixture expectations checked before this run (checker/fixtures/fx): each engine fired on its must-fire example and stayed silent on its must-stay-silent example", selfTestN)
+	}
 	if c.Only != "" {
 		var keep []*Oblig
 		for _, o := range r.Obs {
@@ -122,6 +125,8 @@ func main() {
 	repo := flag.String("repo", repoDir(), "tree to analyse")
 	only := flag.String("only", "", "restrict output to obligations whose key contains this string")
 	list := flag.Bool("list", false, "list registered properties")
+	selfOnly := flag.Bool("selftest", false, "run only the fixture self-test")
+	noSelf := flag.Bool("noselftest", false, "skip the fixture self-test")
 	flag.Parse()
 	debug.SetGCPercent(400)
 	if *list {
@@ -149,8 +154,16 @@ func main() {
 	} else {
 		ids = strings.Split(*prop, ",")
 	}
+	if *selfOnly {
+		os.Exit(runSelfTest())
+	}
 	stop := startProf()
 	exit := 0
+	if !*noSelf && os.Getenv("LOWCHECK_NOSELFTEST") == "" {
+		if code := runSelfTest(); code != 0 {
+			os.Exit(code)
+		}
+	}
 	for _, id := range ids {
 		p, ok := registry[id]
 		if !ok {
